@@ -78,11 +78,12 @@ Record dstate := {
   fstep  : nat;
   reqs   : list request;                     (* requests still to come *)
   events : list event;                       (* emitted so far, most recent first *)
-  heads  : list (option node * option node)  (* ghost: (tracked, true) node at every consultation, most recent first *)
+  heads  : list (option node * option node); (* ghost: (tracked, true) node at every consultation, most recent first *)
+  offcfg : bool                              (* ghost: some operation returned a closure that is not the one of its node's tnext or fnext *)
 }.
 
 Definition with_mode (d : dstate) (r : reason) (s : nat) (q : list request) : dstate :=
-  {| mode := r; fdepth := fdepth d; fstep := s; reqs := q; events := events d; heads := heads d |}.
+  {| mode := r; fdepth := fdepth d; fstep := s; reqs := q; events := events d; heads := heads d; offcfg := offcfg d |}.
 
 (** debugRoutine.setMode *)
 Definition set_mode (d : dstate) (r : reason) (q : list request) : dstate :=
@@ -107,16 +108,34 @@ Definition resume (d : dstate) : dstate :=
   end.
 
 Definition emit (d : dstate) (e : event) : dstate :=
-  {| mode := mode d; fdepth := fdepth d; fstep := fstep d; reqs := reqs d; events := e :: events d; heads := heads d |}.
+  {| mode := mode d; fdepth := fdepth d; fstep := fstep d; reqs := reqs d; events := e :: events d; heads := heads d; offcfg := offcfg d |}.
 
 Definition note (d : dstate) (h : option node * option node) : dstate :=
-  {| mode := mode d; fdepth := fdepth d; fstep := fstep d; reqs := reqs d; events := events d; heads := h :: heads d |}.
+  {| mode := mode d; fdepth := fdepth d; fstep := fstep d; reqs := reqs d; events := events d; heads := h :: heads d; offcfg := offcfg d |}.
 
 Definition enter_call (d : dstate) : dstate :=
-  {| mode := mode d; fdepth := S (fdepth d); fstep := fstep d; reqs := reqs d; events := events d; heads := heads d |}.
+  {| mode := mode d; fdepth := S (fdepth d); fstep := fstep d; reqs := reqs d; events := events d; heads := heads d; offcfg := offcfg d |}.
 
 Definition exit_call (d : dstate) : dstate :=
-  {| mode := mode d; fdepth := pred (fdepth d); fstep := fstep d; reqs := reqs d; events := events d; heads := heads d |}.
+  {| mode := mode d; fdepth := pred (fdepth d); fstep := fstep d; reqs := reqs d; events := events d; heads := heads d; offcfg := offcfg d |}.
+
+(** Ghost: remember that the running operation (node [t]) returned a closure with code address [p]
+    that runs node [s] although [s] is not the tnext or fnext of [t] with that code address. *)
+Definition opt_pc_eqb (a : option pc) (p : pc) : bool :=
+  match a with Some q => N.eqb q p | None => false end.
+
+Definition opt_is (a : option node) (s : node) : bool :=
+  match a with Some x => Nat.eqb x s | None => false end.
+
+Definition tf_step (g : cfg) (t : option node) (p : pc) (s : node) : bool :=
+  match t with
+  | Some tn => opt_pc_eqb (ident g s) p && (opt_is (tnext g tn) s || opt_is (fnext g tn) s)
+  | None => false
+  end.
+
+Definition mark (d : dstate) (ok : bool) : dstate :=
+  {| mode := mode d; fdepth := fdepth d; fstep := fstep d; reqs := reqs d; events := events d; heads := heads d;
+     offcfg := offcfg d || negb ok |}.
 
 (** [if n != nil && n.pos == token.NoPos { return false }] *)
 Definition transparent (g : cfg) (m : option node) : bool :=
@@ -201,7 +220,7 @@ Section Loops.
                  | _ => (ps2, d3, s)
                  end
              | Some (ps1, ARet None) => (ps1, d1, Returned)
-             | Some (ps1, ARet (Some (p, n))) => d_run k n0 (track g n0 m p) (Some n) true ps1 d1
+             | Some (ps1, ARet (Some (p, n))) => d_run k n0 (track g n0 m p) (Some n) true ps1 (mark d1 (tf_step g t p n))
              | Some (ps1, APanic) => (ps1, d1, Panicked)
              end
     end.
@@ -210,7 +229,7 @@ Section Loops.
       client starts it; the events are framed by EnterGoRoutine ... ExitGoRoutine, Terminate.
       Execute itself is the outermost "operation": its nested runs are the calls of interp.run. *)
   Definition d_init (rq : list request) : dstate :=
-    resume {| mode := REntry; fdepth := 0; fstep := 0; reqs := rq; events := []; heads := [] |}.
+    resume {| mode := REntry; fdepth := 0; fstep := 0; reqs := rq; events := []; heads := []; offcfg := false |}.
 
   Definition session_events (d : dstate) : list event :=
     (REnterG, None) :: rev (events d) ++ [(RExitG, None); (RTerminate, None)].
@@ -261,6 +280,14 @@ Definition g_breaks (g : cfg) (visited : list (option node)) : list (option node
     node that really runs. *)
 Definition exact_at_flags (g : cfg) (hs : list (option node * option node)) : Prop :=
   forall m t, In (m, t) hs -> (stops g m || stops g t) = true -> m = t.
+
+(** Static side condition: the two successors of a node are never closures of the same generator. *)
+Definition distinct_succ (g : cfg) : Prop :=
+  forall n a b, tnext g n = Some a -> fnext g n = Some b -> a <> b -> ident g a <> ident g b.
+
+(** The run stayed on the graph: every closure returned was the one of the tnext or fnext. *)
+Definition d_session_oncfg {St} (mstep : St -> option (St * act)) (g : cfg) (fuel : nat) (ps : St) (rq : list request) : bool :=
+  let '(_, d, _) := d_run mstep g fuel 0 None None false ps (d_init rq) in negb (offcfg d).
 
 Definition opt_node_eqb (a b : option node) : bool :=
   match a, b with
